@@ -45,6 +45,8 @@ func genQS(r *rng.R, totalMode int, interval uint64, histMode int, withAgg bool,
 		q.Total = uint64(len(q.IDs) + r.Intn(4))
 	case 2:
 		q.Total = uint64(r.Intn(3))
+	case 3:
+		q.Total = uint64(len(q.IDs))
 	}
 	if interval > 0 {
 		switch histMode {
@@ -54,6 +56,10 @@ func genQS(r *rng.R, totalMode int, interval uint64, histMode int, withAgg bool,
 			}
 			if r.Chance(1, 2) {
 				q.Hist[uint64(r.Intn(mids))/interval*interval] += uint64(r.Intn(3))
+			}
+		case 2: // exactly the IDs
+			for _, id := range q.IDs {
+				q.Hist[id[0]-id[0]%interval]++
 			}
 		case 1: // arbitrary buckets: a repair may hit a missing or an empty bucket
 			for i := r.Intn(4); i > 0; i-- {
@@ -80,6 +86,9 @@ func genMerge(r *rng.R) *Spec {
 	}
 	totalMode := rng.Pick(r, []int{0, 1, 1, 1, 2})
 	histMode := rng.Pick(r, []int{0, 0, 0, 1})
+	if r.Chance(1, 3) { // every part counts exactly its own IDs and the limit cuts nothing
+		totalMode, histMode, sp.Limit = 3, 2, 60
+	}
 	withAgg := r.Chance(1, 3)
 	mids := rng.Pick(r, []int{3, 6, 12})
 	sp.Dst = genQS(r, totalMode, sp.Interval, histMode, withAgg, mids)
@@ -94,6 +103,15 @@ func genMerge(r *rng.R) *Spec {
 		sp.Dst.IDs = u
 		if sp.Dst.IDs == nil {
 			sp.Dst.IDs = [][2]uint64{}
+		}
+	}
+	if totalMode == 3 {
+		sp.Dst.Total = uint64(len(sp.Dst.IDs))
+		sp.Dst.Hist = map[uint64]uint64{}
+		if sp.Interval > 0 {
+			for _, id := range sp.Dst.IDs {
+				sp.Dst.Hist[id[0]-id[0]%sp.Interval]++
+			}
 		}
 	}
 	sp.Qs = []*QS{}
